@@ -2,6 +2,18 @@
 DEFERRED = "rules for this property are not armed yet (build order: DESIGN.md Appendix D); not claimed until a self-tested rule exists"
 
 CLAIMS = {
+    "C04": {
+        "level": "other",
+        "text": "Framing arithmetic from the constants and affine forms of the framer's MIR, for all message sizes: single transport write site writing the whole pending buffer, single flush site; header length field = len(to_write) - H with H = 4 = truncate length = initial length, byte 3 = sequence counter; split comparison constant K equals the copy bound K2 and K - H = 0xFFFFFF; emission skipped only when payload == 0 and the last-full flag is clear, every emitting path sets flag := payload == 0xFFFFFF; write() leaves len < K or ends the packet and returns the buffered count. Found and fixed: threshold counted the header (0xFFFFFB packets) and no empty terminator after an exact multiple.",
+        "note": "Trusted: byteorder write_u24, Vec semantics. Client reassembly is the protocol's rule.",
+        "technique": "constant/affine extraction from MIR, path rules on the terminator and Write::write",
+    },
+    "C05": {
+        "level": "other",
+        "text": "Sequence-counter rules: stamped into header[3] then advanced by u8::wrapping_add(_,1) on every emitting path and untouched otherwise; no checked u8 addition on non-constant operands anywhere on the client path; in every enumerated loop-iteration path the setter is called with wrapping_add(id returned by this iteration's read, 1) before the first write or callback, same for each handshake read; counter written only by constructor (0), setter, terminator; reassembled packets report the final fragment's id. Found and fixed: checked seq + 1 (panic at 255) at five sites.",
+        "note": "Trusted: u8::wrapping_add.",
+        "technique": "path-precise def-use on enumerated paths, who-writes-field table, assert-terminator scan",
+    },
     "C20": {
         "level": "other",
         "text": "Panic-site obligations over the MIR of all client-path functions (call-graph reachability from run_on minus writer/encoder code, plus the parameter-decoding API): every Assert terminator, core::panicking call, unwrap/expect, split_at, indexing, drain and byteorder slice writer is either discharged mechanically (constant folding, type-derived intervals, dominating-branch facts with affine length/index forms, loop-range bounds), justified in a reasoned table tied to the invariant rule that backs it, or reported. Found and fixed three crashes (sequence id 255, unknown/truncated command, out-of-order fragments); seven sites in the parameter iterator remain as known findings with a triggering input. Plus loop-shape progress rule and feasibility of the iterator's unreachable!().",
